@@ -410,7 +410,7 @@ def commandObs (st : St) (c : Cmd) : St × Verdict :=
       (st', .pred (fun g => g.startsWith "err:closed file=0" || okPred g) ("err:closed file=0 or " ++ okStr ++ " with the reference content digest"))
     else if (c.get? "engfail").isSome then
       (st', .pred (fun g => if kvOf g "fired" == some "0" then g.startsWith okStr
-                            else g.startsWith "err:engine file=0" ∧ kvOf g "englive" == some "0")
+                            else g.startsWith "err:engine file=0" ∧ kvOf g "fired" == some "1" ∧ kvOf g "englive" == some "0")
             ("err:engine file=0 englive=0 (or, if the fault did not fire, " ++ okStr ++ ")"))
     else match c.get? "fsize" with
       | some lim =>
